@@ -23,6 +23,9 @@ Record inv (st : qstate) : Prop := mkInv {
 Lemma setn_same {A} (l : list A) k y : nth_error l k = Some y -> setn l k y = l.
 Proof. revert k; induction l as [|z l IH]; intros [|k]; simpl; try discriminate. - intros [= ->]; auto. - intros H; f_equal; auto. Qed.
 
+Lemma setn_setn' {A} (l : list A) k x y : setn (setn l k x) k y = setn l k y.
+Proof. revert k; induction l as [|z l IH]; intros [|k]; simpl; auto. f_equal; auto. Qed.
+
 Lemma map_otype_release h p : map otype (release h p) = map otype h.
 Proof.
   destruct p as [[i dt]|]; simpl; auto. unfold run_deleter.
@@ -157,7 +160,7 @@ Proof. intros F T. rewrite map_setn. apply Forall_setn; auto. Qed.
 Lemma inv_step st o : inv st -> inv (q_step st o).
 Proof.
   intros [Hc Htp Htv Hw]. destruct st as [h pool v]. simpl in *.
-  destruct o as [i t|i j|i j|i|i|i| | |i k]; simpl.
+  destruct o as [i t|i j|i j|i|i|i| | |i k|i|k|i j|i|]; simpl.
   - (* Make *)
     destruct (nth_error pool i) as [[|old]|] eqn:Ei; [| |constructor; auto].
     + constructor; simpl.
@@ -268,6 +271,55 @@ Proof.
       * eapply Forall_typed_mono; eauto.
       * apply T. rewrite Forall_forall in Htv. apply Htv. eapply nth_error_In; eauto.
     + apply Forall_setn; simpl; auto. eapply Forall_typed_mono; eauto.
+  - (* AssignNull *)
+    destruct (is_live (nth_error pool i)) as [p|] eqn:Ei; [|constructor; auto].
+    apply is_live_some in Ei. simpl.
+    destruct (release_one h p) as (W & L & T); auto.
+    { intros id. pose proof (pool_holds pool i (Live p) id Ei) as P. simpl in P. specialize (Hc id). lia. }
+    { apply (pool_typed h pool i (Live p)); auto. }
+    constructor; simpl; auto.
+    + intros id. pose proof (pool_cnt pool i (Live p) (Live None) id Ei) as P1. simpl in P1.
+      change (holds pid id None) with 0 in *. specialize (Hc id). specialize (L id). lia.
+    + apply Forall_pool_setn; simpl; auto. eapply Forall_typed_mono; eauto.
+    + eapply Forall_typed_mono; eauto.
+  - (* VecAssignNull *)
+    destruct (nth_error v k) as [p|] eqn:Ek; [|constructor; auto]. simpl.
+    destruct (release_one h p) as (W & L & T); auto.
+    { intros id. pose proof (cnt_nth pid id v k p Ek) as P. specialize (Hc id). lia. }
+    { rewrite Forall_forall in Htv. apply Htv. eapply nth_error_In; eauto. }
+    constructor; simpl; auto.
+    + intros id. pose proof (cnt_setn pid id v k None p Ek) as P2.
+      change (holds pid id None) with 0 in *. specialize (Hc id). specialize (L id). lia.
+    + eapply Forall_typed_mono; eauto.
+    + apply Forall_setn; simpl; auto. eapply Forall_typed_mono; eauto.
+  - (* Swap *)
+    destruct (is_live (nth_error pool i)) as [pi|] eqn:Ei; [|constructor; auto].
+    destruct (is_live (nth_error pool j)) as [pj|] eqn:Ej; [|constructor; auto].
+    apply is_live_some in Ei, Ej. simpl.
+    constructor; simpl; auto.
+    + intros id. destruct (Nat.eq_dec i j) as [->|Hne].
+      * assert (pi = pj) by congruence. subst pj. rewrite setn_setn', (setn_same _ _ _ Ei). apply Hc.
+      * assert (Ej' : nth_error (setn pool i (Live pj)) j = Some (Live pj)) by (rewrite nth_error_setn_ne; auto).
+        pose proof (pool_cnt pool i (Live pi) (Live pj) id Ei) as P1.
+        pose proof (pool_cnt _ j (Live pj) (Live pi) id Ej') as P2. simpl in P1, P2. specialize (Hc id). lia.
+    + apply Forall_pool_setn; [apply Forall_pool_setn|]; simpl; auto.
+      * apply (pool_typed h pool j (Live pj)); auto.
+      * apply (pool_typed h pool i (Live pi)); auto.
+  - (* DefCtor *)
+    destruct (nth_error pool i) as [[|?]|] eqn:Ei; try (constructor; auto; fail).
+    constructor; simpl; auto.
+    + intros id. pose proof (pool_cnt pool i Gone (Live None) id Ei) as P1. simpl in P1. specialize (Hc id). lia.
+    + apply Forall_pool_setn; simpl; auto.
+  - (* VecPop *)
+    destruct (rev v) as [|p r] eqn:Er; [constructor; auto|]. simpl.
+    assert (Ev : v = rev r ++ [p]) by (rewrite <- (rev_involutive v), Er; reflexivity).
+    subst v. apply Forall_app in Htv. destruct Htv as [Htr Htl]. inversion Htl as [|? ? Tp _]; subst.
+    destruct (release_one h p) as (W & L & T); auto.
+    { intros id. specialize (Hc id). rewrite cnt_app in Hc. simpl in Hc. lia. }
+    constructor; simpl; auto.
+    + intros id. specialize (Hc id). rewrite cnt_app in Hc. simpl in Hc. specialize (L id). lia.
+    + eapply Forall_typed_mono; eauto.
+    + eapply Forall_typed_mono; eauto.
 Qed.
 
 Lemma inv_init n : inv (q_init n).
@@ -346,7 +398,7 @@ Qed.
 Theorem moved_from_and_reset_empty st o j :
   q_applicable st o = true -> must_be_empty o = Some j -> slot_is_null (q_step st o) j = true.
 Proof.
-  destruct st as [h pool v]. unfold slot_is_null. destruct o as [i t|i j'|i j'|i|i|i| | |i k]; simpl; try discriminate.
+  destruct st as [h pool v]. unfold slot_is_null. destruct o as [i t|i j'|i j'|i|i|i| | |i k|i|k|i j'|i|]; simpl; try discriminate.
   - intros A [= ->]. destruct (nth_error pool i) as [[|?]|] eqn:Ei; try discriminate.
     destruct (is_live (nth_error pool j)) as [pj|] eqn:Ej; [|discriminate]. apply is_live_some in Ej. simpl.
     assert (i <> j) by (intros ->; congruence).
@@ -359,6 +411,32 @@ Proof.
     erewrite nth_error_setn_eq; eauto.
   - intros A [= ->]. destruct (is_live (nth_error pool j)) as [p|] eqn:Ei; [|discriminate]. apply is_live_some in Ei.
     simpl. erewrite nth_error_setn_eq; eauto.
+  - intros A [= ->]. destruct (is_live (nth_error pool j)) as [p|] eqn:Ei; [|discriminate]. apply is_live_some in Ei. simpl.
+    erewrite nth_error_setn_eq; eauto.
+Qed.
+
+(* a vector element that was moved out of, or assigned nullptr, is empty afterwards — in every state *)
+Theorem vec_element_emptied st o k :
+  q_applicable st o = true -> vec_must_be_null o = Some k -> vec_is_null (q_step st o) k = true.
+Proof.
+  destruct st as [h pool v]. unfold vec_is_null. destruct o; simpl; try discriminate.
+  - intros A [= ->]. destruct (is_live (nth_error pool i)) as [pi|]; [|discriminate].
+    destruct (nth_error v k) as [pk|] eqn:Ek; [|discriminate]. simpl. erewrite nth_error_setn_eq; eauto.
+  - intros A [= ->]. destruct (nth_error v k) as [pk|] eqn:Ek; [|discriminate]. simpl. erewrite nth_error_setn_eq; eauto.
+Qed.
+
+(* std::swap exchanges what two pointers own and destroys nothing — in every state *)
+Theorem swap_exchanges st i j pi pj :
+  is_live (nth_error (pool st) i) = Some pi -> is_live (nth_error (pool st) j) = Some pj ->
+  heap (q_step st (Swap i j)) = heap st /\
+  (i <> j -> nth_error (pool (q_step st (Swap i j))) i = Some (Live pj) /\ nth_error (pool (q_step st (Swap i j))) j = Some (Live pi)).
+Proof.
+  intros Hi Hj. destruct st as [h pool v]. simpl in *. rewrite Hi, Hj. simpl. split; auto.
+  intros Hne. apply is_live_some in Hi, Hj.
+  assert (Ej' : nth_error (setn pool i (Live pj)) j = Some (Live pj)) by (rewrite nth_error_setn_ne; auto).
+  split.
+  - rewrite nth_error_setn_ne by auto. eapply nth_error_setn_eq; eauto.
+  - eapply nth_error_setn_eq; eauto.
 Qed.
 
 (* the target of a move owns what the source owned *)
@@ -478,7 +556,7 @@ Qed.
 (* one operation never forgets an object, changes its type, revives it or removes a destruction record — in every state *)
 Theorem heap_extends_step st o : heap_extends (heap st) (heap (q_step st o)) = true.
 Proof.
-  destruct st as [h pool v]. destruct o as [i t|i j|i j|i|i|i| | |i k]; simpl.
+  destruct st as [h pool v]. destruct o as [i t|i j|i j|i|i|i| | |i k|i|k|i j|i|]; simpl.
   - destruct (nth_error pool i) as [[|old]|]; simpl; try apply heap_extends_refl.
     + apply heap_extends_app.
     + eapply heap_extends_trans; [apply heap_extends_app | apply heap_extends_release].
@@ -494,4 +572,10 @@ Proof.
   - apply heap_extends_release_all.
   - destruct (is_live (nth_error pool i)); [|apply heap_extends_refl].
     destruct (nth_error v k); simpl; [apply heap_extends_release | apply heap_extends_refl].
+  - destruct (is_live (nth_error pool i)); simpl; [apply heap_extends_release | apply heap_extends_refl].
+  - destruct (nth_error v k); simpl; [apply heap_extends_release | apply heap_extends_refl].
+  - destruct (is_live (nth_error pool i)); [|apply heap_extends_refl].
+    destruct (is_live (nth_error pool j)); simpl; apply heap_extends_refl.
+  - destruct (nth_error pool i) as [[|?]|]; simpl; apply heap_extends_refl.
+  - destruct (rev v); simpl; [apply heap_extends_refl | apply heap_extends_release].
 Qed.
